@@ -135,7 +135,7 @@ class MachineRun:
                 e = exp.get(key)
                 if e is None:
                     g_ = self.by_g[a["g"]]
-                    if [chr(c) for c in a["inp"]] in getattr(g_, "real_extra", []):
+                    if len(a["inp"]) > 20000 or [chr(c) for c in a["inp"]] in getattr(g_, "real_extra", []):
                         # beyond the exhaustive bound: expectation from the lean run (no attempt sets, no history)
                         self.real_only.append(Case(fam, g_, a["inp"], lean.get(key), a))
                         continue
